@@ -1048,17 +1048,24 @@ func (s *sim) totpPress(a *acct, e *Event) {
 	s.noteTOTP(tc.Sec, periodEff(a.Period))
 	if s.prop == "C04" && tp == nil {
 		// "absent parameters mean 6 digits, SHA-1, 30 s": nil parameters on the token side
-		if want, ok := refHOTP(a.tokSecret, uint64(tc.Sec)/30, 6, 0); ok {
+		// (the reference is the same function with the defaults spelled out, not HOTP at
+		// the step: whether TOTP equals HOTP at the step is C02's business, not C04's)
+		var want string
+		var werr error
+		rw := guarded(func() {
+			want, werr = otp.GenerateTOTP(fresh(a.tokSecret), goTime(tc, a.Zone, a.Mono), &otp.Param{Digits: 6, Algorithm: otp.SHA1, Period: 30})
+		})
+		if ok := !rw.panicked && !rw.tripped && werr == nil; ok {
 			verifh.Count("oracle.nil-param-generation==explicit-defaults", 1)
 			switch {
 			case r.panicked:
-				s.fail("absent-params==defaults", "GenerateTOTP", "panics-with-nil-param", fmt.Sprintf("GenerateTOTP(t=%d, nil) panicked: %v; the code of step %d with 6 digits, SHA-1 is %q", tc.Sec, r.pval, tc.Sec/30, want))
+				s.fail("absent-params==defaults", "GenerateTOTP", "panics-with-nil-param", fmt.Sprintf("GenerateTOTP(t=%d, nil) panicked: %v; with &Param{Digits: 6, Algorithm: SHA1, Period: 30} it returns %q", tc.Sec, r.pval, want))
 				return
 			case !r.tripped && err != nil:
-				s.fail("absent-params==defaults", "GenerateTOTP", "fails-with-nil-param", fmt.Sprintf("GenerateTOTP(t=%d, nil) = error %v; the code of step %d with 6 digits, SHA-1 is %q", tc.Sec, err, tc.Sec/30, want))
+				s.fail("absent-params==defaults", "GenerateTOTP", "fails-with-nil-param", fmt.Sprintf("GenerateTOTP(t=%d, nil) = error %v; with &Param{Digits: 6, Algorithm: SHA1, Period: 30} it returns %q", tc.Sec, err, want))
 				return
 			case !r.tripped && code != want:
-				s.fail("absent-params==defaults", "GenerateTOTP", "differs-with-nil-param", fmt.Sprintf("GenerateTOTP(t=%d, nil) = %q; the code of step %d with 6 digits, SHA-1 is %q", tc.Sec, code, tc.Sec/30, want))
+				s.fail("absent-params==defaults", "GenerateTOTP", "differs-with-nil-param", fmt.Sprintf("GenerateTOTP(t=%d, nil) = %q; with &Param{Digits: 6, Algorithm: SHA1, Period: 30} it returns %q", tc.Sec, code, want))
 				return
 			}
 		}
